@@ -10,7 +10,7 @@ def run(chk):
     textrules.r01_esc(chk, rule="R02-esc")
     textrules.r01_hex(chk, rule="R02-hex")
     from . import writertab
-    writertab.compare(chk, "R02-writer", floor=54)
+    writertab.compare(chk, "R02-writer", floor=48)
     chk.assumptions += ["not decided: token-sequence equality of output and input as such"]
 
 
